@@ -141,6 +141,14 @@ def gen_c18(tier, R):
             rep = R.choice(reps)
             lim = R.choice([0.0, 1.0, 1.0, 2.0, 3.0, 5.0, 1.5, -1.0])
             out.append(f"(re _ {sx(p)} {s(text)} {s(h)} {s(rep)} {num(lim)})")
+    # patterns outside the modelled subset (counted repetitions, flags, classes, word boundaries) on short AND long haystacks: the four builtins against the engine used
+    # directly (oracle only) - a shortcut keyed on the length of the haystack or on the first characters of the pattern must not change any answer
+    xpats = ["Z{0,2}o", "Z{0}o", "a{0,}b", "a{2}", "a{1,3}?", "\\d+", "(?i)ab", "[[:alpha:]]+", "\\bab\\b", "x{0,1}y", "(a){0,2}b", "β{0,}α", "o", "q", "t{0,2}he", "Z{0,2}o|q", "(Z{0,2})o", "a{0}", "(?:ab){0,3}c",
+             "\\w{0,3}x", "é{0,1}a", ".{0,40}g$", "^.{0,3}q"]
+    xhays = ["", "o", "ab", "the quick brown fox jumps over the lazy dog", "α" * 21, "a" * 40, " " * 33 + "o", "x" * 31 + "y", "x" * 32 + "y", "ABab" * 10, "é" * 20 + "a", "q" + "-" * 40]
+    for xp in xpats:
+        for h in xhays:
+            out.append(f"(rex _ (e) {s(xp)} {s(h)} {s(R.choice(reps))} {num(R.choice([0.0, 1.0, 2.0]))})")
     lits = ["", "a", "ab", "a.b", ".", "+", "a+", "(", "[a]", "\\", "é", "aa", "$", "^a", "a|b", "a{2}", "x*", "?"]
     for x in lits:
         for h in hays + ["a.b.a.b", "a+a+", "[a][a]", "aaaa", "(()", "\\\\", "a{2}a{2}", "a|b|", "^a^a", "$$"]:
